@@ -45,8 +45,9 @@ static void roundtrip_M(int64_t M) {
 }
 
 // boundary alphabet for one M: around k*2^32/M and (k+1/2)*2^32/M, each -2..+2
+static std::string g_prefix;
 static void boundary_M(int64_t M) {
-    std::string key = fmt("boundary/M=%lld", (long long)M);
+    std::string key = g_prefix + fmt("boundary/M=%lld", (long long)M);
     current(key);
     uint64_t n = 0;
     for (int64_t k = 0; k < M; k++) {
@@ -102,9 +103,43 @@ static void thread_histories() {
     }
     sample("thread-history/M=2048-then-other-thread-M=6-then-M=2048: 4096 phases each step against the 128-bit oracle");
 }
+// floating-point environment: the functions are specified on integers; a caller running with another rounding mode must get the same answers
+#include <cfenv>
+static void fenv_cases() {
+    struct { int mode; const char *name; } MODES[] = {{FE_TOWARDZERO, "towardzero"}, {FE_UPWARD, "upward"}, {FE_DOWNWARD, "downward"}};
+    for (auto md : MODES) {
+        std::vector<int64_t> Ms; for (int64_t M = 2; M <= 2048; M++) Ms.push_back(M); for (int b = 12; b <= 22; b++) Ms.push_back((int64_t)1 << b); Ms.push_back(32767); Ms.push_back(32768);
+        for (int64_t M : Ms) { g_prefix = fmt("fenv=%s/", md.name); if (take(g_prefix + fmt("boundary/M=%lld", (long long)M))) { if (deadline()) { g_prefix.clear(); return; } fesetround(md.mode); boundary_M(M); fesetround(FE_TONEAREST); } }
+        g_prefix.clear();
+        std::string key = fmt("fenv=%s/dtot32", md.name);
+        if (take(key) && !deadline()) { current(key); fesetround(md.mode); bool ok = true;
+            for (uint32_t i = 0; i < (1u << 16) && ok; i++) { uint32_t x = i * 65537u + (i >> 3); double d = t32tod((Torus32)x); if (dtot32(d) != (Torus32)x || dtot32(d + 1) != (Torus32)x || dtot32(d - 1) != (Torus32)x) { fesetround(FE_TONEAREST); violation(key, fmt("rounding mode %s: dtot32(t32tod(0x%08x) [+-1]) != x", md.name, x)); ok = false; } }
+            fesetround(FE_TONEAREST); eval(3u << 16); nontrivial(3u << 16); outcome(mix(0xFE, md.mode)); }
+    }
+    sample("fenv=upward/boundary/M=1000: the boundary alphabet of M=1000 evaluated by a thread whose floating-point rounding mode is FE_UPWARD");
+}
+// real-to-torus conversion is periodic modulo 1 for every real the type can carry with a fractional part: d = t32tod(x) +- 2^e, e up to 50;
+// expected value computed from the double's integer mantissa (trunc(d*2^32) mod 2^32), independent of the library's arithmetic
+static int32_t dtot32_exact(double d) {
+    if (d == 0) return 0; int ex; double m = frexp(d, &ex); int64_t mant = (int64_t)ldexp(m, 53); int shift = ex - 53 + 32; bool neg = mant < 0; ref::u128 a = (ref::u128)(uint64_t)(neg ? -mant : mant);
+    uint32_t r; if (shift >= 0) r = shift >= 64 ? 0u : (uint32_t)(uint64_t)(a << shift); else r = -shift >= 64 ? 0u : (uint32_t)(uint64_t)(a >> -shift);
+    return (int32_t)(neg ? 0u - r : r);
+}
+static void periodic_large() {
+    for (int e = 0; e <= 50; e++) {
+        std::string key = fmt("dtot32-large/e=%d", e); if (!take(key)) continue; if (deadline()) return; current(key); bool ok = true;
+        for (uint32_t i = 0; i < 8192 && ok; i++) { uint32_t x = i < 64 ? (i < 32 ? (1u << i) : 0u - (1u << (i - 32))) : i * 524309u + 77u;
+            for (int sgn = -1; sgn <= 1 && ok; sgn += 2) for (int mult = 1; mult <= 3 && ok; mult += 2) { double d = t32tod((Torus32)x) + sgn * mult * ldexp(1.0, e); Torus32 got = dtot32(d), want = dtot32_exact(d);
+                if (e <= 19 && want != (Torus32)x) { violation(key, fmt("harness self-check: exact conversion of t32tod(0x%08x)%+g gives 0x%08x", x, sgn * mult * ldexp(1.0, e), (uint32_t)want)); ok = false; }
+                if (got != want) { violation(key, fmt("dtot32(t32tod(0x%08x) %c %d*2^%d) = 0x%08x, the real number %.17g is 0x%08x modulo 1", x, sgn < 0 ? '-' : '+', mult, e, (uint32_t)got, d, (uint32_t)want)); ok = false; } } }
+        eval(4 * 8192); nontrivial(4 * 8192); outcome(mix(0xD7, e));
+    }
+    sample("dtot32-large/e=40: dtot32(t32tod(x) +- {1,3}*2^40) for 8192 x equals trunc(d*2^32) mod 2^32 computed from the mantissa of d (periodicity modulo 1 far from the origin)");
+}
 int main(int argc, char **argv) {
     init(argc, argv);
     thread_histories();
+    if (opt("light") != "1") { fenv_cases(); periodic_large(); }
     std::vector<int64_t> Ms = quick() ? std::vector<int64_t>{2048, 8, 3, 1000}
                                       : std::vector<int64_t>{2, 3, 4, 5, 7, 8, 16, 1000, 1024, 2048, 4096, 32768, (int64_t)1 << 30};
     if (!opt("ms").empty()) { Ms.clear(); std::string v = opt("ms"); size_t q = 0; while (q < v.size()) { size_t e = v.find(',', q); if (e == std::string::npos) e = v.size(); Ms.push_back(atoll(v.substr(q, e - q).c_str())); q = e + 1; } }
